@@ -72,11 +72,13 @@ class Credits(Mode):
         self.add_mode_event_handler('slam_tilt',
                                     self.clear_all_credits)
 
+        # always calculate units and tiers: credit play may be enabled later
+        self._calculate_credit_units()
+        self._calculate_pricing_tiers()
+
         if self.machine.settings.get_setting_value("free_play"):
             self.enable_free_play(post_event=False)
         else:
-            self._calculate_credit_units()
-            self._calculate_pricing_tiers()
             self.enable_credit_play(post_event=False)
 
     def _reset_earnings(self, **kwargs):
